@@ -8,7 +8,7 @@ from ..hx import assume, require, reach, Skip
 MANIFEST = dict(
     engines="AB",
     technique="symbolic execution (CrossHair+z3) of PkgRelation.str -> parse_relations over relation structures from a shape catalogue with symbolic names, qualifiers, versions, architecture and profile names and operator index; regex-to-SMT inclusion of the language of formatted atoms in the live dependency regex",
-    text="Engine A: for relation structures of 1-2 conjuncts x 1-2 alternatives with every combination of optional parts (architecture qualifier, version constraint with each of the five operators, 1-2 plain or negated architectures, 1-2 restriction groups of 1-2 terms), with one or two parts symbolic (up to 2-3 characters from the respective Policy alphabets), parse_relations(str(rels)) == rels without warning and str() of the parse is identical. Engine B: every formatted atom of ANY length over those alphabets is matched by the live __dep_RE.",
+    text="Engine A: for relation structures of 1-2 conjuncts x 1-2 alternatives with every combination of optional parts (architecture qualifier, version constraint with each of the five operators, 1-2 plain or negated architectures, 1-2 restriction groups of 1-2 terms), with one or two parts symbolic (up to 2-3 characters from the respective Policy alphabets), parse_relations(str(rels)) == rels without warning and str() of the parse is identical. Engine B: every formatted atom of ANY length over those alphabets is matched by the live __dep_RE. Counts: 0-6 restriction groups of 1-3 terms, 0-6 architectures, 1-2 (thorough: 4) alternatives and conjuncts as symbolic integers over catalogues (versions with 2- and 10-digit epochs).",
     note="Trusted: CrossHair's regex/str models with the groupdict repair (counterexamples replayed on CPython); z3 regex theory. Domain: names [a-z0-9][a-z0-9.+-]*, qualifiers [a-z0-9][a-z0-9-]*, versions [0-9a-zA-Z:+~.-]+, architecture names [a-z0-9-]+, profile names lower-case [a-z0-9.+-]+ (the parser lower-cases restriction formulas).",
 )
 
